@@ -64,10 +64,30 @@ def rule_separator_consumers(ctx: Ctx, rule: str) -> None:
                 continue
             var = c.args[0].id
             g = q.guards(c)
-            fixed = [t for t, pol in g if pol == 'T' and t.startswith(f'{var} == ')]
-            slash_f = (f"{var} == '/'", 'F') in g
-            bslash_f = (f"{var} == '\\\\'", 'F') in g
-            ok = bool(fixed) and not any(t in (f"{var} == '/'", f"{var} == '\\\\'") for t in fixed) or (slash_f and bslash_f)
+            # what the guards say about the character: the constants it is known to be / known not to be
+            # (`c == K`, `c in (K1, K2)` and their negations; the polarity of the CFG edge is applied)
+            is_one_of: list[set] = []
+            is_none_of: set = set()
+            for t, pol in g:
+                try:
+                    e = ast.parse(t, mode='eval').body
+                except SyntaxError:
+                    continue
+                if not (isinstance(e, ast.Compare) and len(e.ops) == 1 and isinstance(e.left, ast.Name) and e.left.id == var):
+                    continue
+                rhs = e.comparators[0]
+                if isinstance(e.ops[0], (ast.Eq, ast.NotEq)) and isinstance(rhs, ast.Constant):
+                    ks, neg = {rhs.value}, isinstance(e.ops[0], ast.NotEq)
+                elif isinstance(e.ops[0], (ast.In, ast.NotIn)) and isinstance(rhs, (ast.Tuple, ast.Set, ast.List)) and \
+                        all(isinstance(x, ast.Constant) for x in rhs.elts):
+                    ks, neg = {x.value for x in rhs.elts}, isinstance(e.ops[0], ast.NotIn)
+                else:
+                    continue
+                if (pol == 'T') != neg:
+                    is_one_of.append(ks)
+                else:
+                    is_none_of |= ks
+            ok = any(not (ks & {'/', '\\'}) for ks in is_one_of) or {'/', '\\'} <= is_none_of
             n_esc += 1
             ctx.ob(rule, f'{WP}:{qn}/re.escape({var})@{n_esc}', ok, repo.loc(WP, c),
                    f"reached only when {var} is neither '/' nor '\\\\'",
